@@ -46,8 +46,9 @@ def _work_dir() -> str:
 
 def add_markers(spec: dict, max_tick: int) -> dict:
     spec = dict(spec)
-    spec["song"] = [["Name", '"first marker"'], ["Resolution", str(spec["res"])],
-                    ["Charter", '"last marker"']]
+    extras = [x for x in (spec.get("song") or []) if x[0] not in ("Name", "Charter", "Resolution")]
+    spec["song"] = [["Name", '"first marker"']] + extras[:len(extras) // 2] + [["Resolution", str(spec["res"])]] \
+        + extras[len(extras) // 2:] + [["Charter", '"last marker"']]
     spec["sync"] = list(spec["sync"]) + [[max_tick, "A", 123456789]]
     spec["events"] = [[0, "first_marker"]] + list(spec["events"]) + [[max_tick, "section last_marker"]]
     tracks = {}
@@ -76,6 +77,18 @@ def _cases(draw, ctx):
     c = draw(G.chart_specs(max_segments=4, max_tracks=ctx.pick(5, 10), max_notes=6, max_events=4,
                            max_ts=2, max_anchors=1, with_layout=False))
     spec = add_markers(c["spec"], c["max_tick"])
+    # sections with line-for-line IDENTICAL bodies (another difficulty of the same instrument, another
+    # instrument): routing is by header, never by content
+    if spec["tracks"] and draw(st.integers(0, 2)) == 0:
+        src = draw(st.sampled_from(sorted(spec["tracks"])))
+        inst = S.HEADERS[src][0]
+        same_inst = [h for h in S.HEADER_LIST if S.HEADERS[h][0] == inst and h not in spec["tracks"]]
+        other = [h for h in S.HEADER_LIST if h not in spec["tracks"]]
+        for pool in (same_inst, other):
+            if pool and draw(st.booleans()):
+                dst = draw(st.sampled_from(pool))
+                if dst not in spec["tracks"]:
+                    spec["tracks"][dst] = list(spec["tracks"][src])
     names = [n for n, _ in S.sections_of(spec)]
     order = draw(st.permutations(names))
     nunk = draw(st.sampled_from([0, 0, 1, 1, 2, 3]))
@@ -238,6 +251,11 @@ def header_cases(ctx: Ctx):
     names = [n for n, _ in S.sections_of(allspec)]
     yield {"spec": allspec, "order": list(reversed(names)), "unknown": [["Foo", ["x"], 7]]}
     yield {"spec": allspec, "order": names[3:] + names[:3], "unknown": []}
+    # all 40 sections with one and the same body
+    same = add_markers(dict(base, tracks={h: _track_for(7, "x") for h in S.HEADER_LIST}), 5000)
+    same["tracks"] = {h: list(same["tracks"][S.HEADER_LIST[0]]) for h in S.HEADER_LIST}
+    yield {"spec": same, "order": None, "unknown": []}
+    yield {"spec": same, "order": list(reversed([n for n, _ in S.sections_of(same)])), "unknown": []}
 
 
 PARTS: list[Part] = [
